@@ -478,7 +478,20 @@ class URL:
         ud = DEFAULT_PARSED_URL
         if url:
             if isinstance(url, URL):
-                url = url.to_text()  # better way to copy URLs?
+                # copy the parsed state: going through the minimally
+                # quoted text would decode a '%' held by a component
+                # (from '%25') a second time
+                self.scheme = url.scheme
+                self._netloc_sep = url._netloc_sep
+                self.username = url.username
+                self.password = url.password
+                self.family = url.family
+                self.host = url.host
+                self.port = url.port
+                self.path_parts = tuple(url.path_parts)
+                self._query = url.query_params.to_text(full_quote=True)
+                self.fragment = url.fragment
+                return
             elif isinstance(url, bytes):
                 try:
                     url = url.decode(DEFAULT_ENCODING)
